@@ -5,6 +5,7 @@ import (
 	"crypto/tls"
 	"fmt"
 	"net"
+	"strings"
 	"sync"
 	"sync/atomic"
 	"time"
@@ -304,6 +305,62 @@ func c16Sequences(r *Result) {
 		obs += fmt.Sprintf("second-client-connected=%v requests-it-got-served=%d", err == nil, atomic.LoadInt32(&served)-before)
 		if obs != "second-client-connected=false requests-it-got-served=0" {
 			r.find(Finding{Kind: "violation", What: "a Client talked to a server whose certificate does not verify against its own root pool (after another Client had connected there)", Input: key,
+				Expect: "second-client-connected=false requests-it-got-served=0", Actual: obs})
+		}
+		ctx, cancel := context.WithTimeout(context.Background(), 5*time.Second)
+		_ = s.Shutdown(ctx)
+		cancel()
+		<-done
+		r.Stats["client-sequence-scenarios"]++
+	}
+	// one *tls.Config shared by two Clients (ServerName left empty, as DefaultClientTLSConfig leaves it): the certificate is valid
+	// for "localhost" only; the first Client dials localhost:port, the second 127.0.0.1:port and must be refused (wrong host),
+	// whatever the first connection did to the shared configuration
+	{
+		key := "shared client config: first Client dials localhost (certificate valid for it), second dials 127.0.0.1 (not valid)"
+		r.eval(key, true)
+		scfg := &tls.Config{Certificates: []tls.Certificate{tlsm.Leaf(ca, tlsm.LeafOpts{Host: "localhost"})}, ClientCAs: ca.Pool}
+		kmip.DefaultServerTLSConfig(scfg)
+		ln, err := tls.Listen("tcp", "127.0.0.1:0", scfg)
+		if err != nil {
+			r.find(Finding{Kind: "disagreement", What: "cannot listen", Input: err.Error()})
+			return
+		}
+		s := &kmip.Server{}
+		var served int32
+		s.Handle(kmip.OPERATION_ACTIVATE, func(ctx *kmip.RequestContext, item *kmip.RequestBatchItem) (interface{}, error) {
+			atomic.AddInt32(&served, 1)
+			return kmip.ActivateResponse{UniqueIdentifier: "x"}, nil
+		})
+		init := make(chan struct{})
+		done := make(chan error, 1)
+		go func() { done <- s.Serve(ln, init) }()
+		<-init
+		_, port, _ := net.SplitHostPort(ln.Addr().String())
+		shared := &tls.Config{RootCAs: ca.Pool, Certificates: []tls.Certificate{tlsm.Leaf(ca, tlsm.LeafOpts{Host: "client", Client: true})}}
+		kmip.DefaultClientTLSConfig(shared)
+		first := &kmip.Client{Endpoint: "localhost:" + port, TLSConfig: shared, ReadTimeout: 2 * time.Second, WriteTimeout: 2 * time.Second}
+		obs := ""
+		if err := first.Connect(); err != nil {
+			obs = "(first client could not connect to localhost: " + err.Error() + ") "
+		} else {
+			_, _ = first.Send(kmip.OPERATION_ACTIVATE, kmip.ActivateRequest{UniqueIdentifier: "a"})
+			first.Close()
+		}
+		before := atomic.LoadInt32(&served)
+		second := &kmip.Client{Endpoint: "127.0.0.1:" + port, TLSConfig: shared, ReadTimeout: 2 * time.Second, WriteTimeout: 2 * time.Second}
+		err = second.Connect()
+		if err == nil {
+			_, _ = second.Send(kmip.OPERATION_ACTIVATE, kmip.ActivateRequest{UniqueIdentifier: "a"})
+		}
+		second.Close()
+		obs += fmt.Sprintf("second-client-connected=%v requests-it-got-served=%d", err == nil, atomic.LoadInt32(&served)-before)
+		if !strings.HasSuffix(obs, "second-client-connected=false requests-it-got-served=0") || strings.HasPrefix(obs, "(") {
+			kind := "violation"
+			if strings.HasPrefix(obs, "(") {
+				kind = "disagreement" // localhost does not resolve here: the scenario says nothing
+			}
+			r.find(Finding{Kind: kind, What: "a Client talked to a server whose certificate is not valid for the host it dialled (shared tls.Config)", Input: key,
 				Expect: "second-client-connected=false requests-it-got-served=0", Actual: obs})
 		}
 		ctx, cancel := context.WithTimeout(context.Background(), 5*time.Second)
